@@ -63,6 +63,9 @@ class Contract:
         self.native_skip = False
         self.decreases_expr = None
         self.interface_flag = False
+        self.raise_effects = []
+        self.raise_ensures_l = []    # (name, expr): hold when the function exits by an exception
+        self.raise_msgs = {}
         self.keeps_epoch = False    # modifies nothing a matcher / message text depends on (checked when the body is verified)
         self.effects = []           # ghost code run at the call site after the havoc (assumed effect of trusted contracts)
         self.setup = None           # native: callable(args)->(callable, args) to build receiver objects
@@ -72,8 +75,8 @@ class Contract:
         self.requires_l.append((name or 'pre%d' % len(self.requires_l), e)); return self
     def ensures(self, e, name=None):
         self.ensures_l.append((name or 'post%d' % len(self.ensures_l), e)); return self
-    def raises(self, exc, when=None, exact=True):
-        self.raises_l.append((exc, when, exact)); return self
+    def raises(self, exc, when=None, exact=True, msg=None):
+        self.raises_l.append((exc, when, exact)); self.raise_msgs[exc] = msg; return self
     def modifies(self, *es):
         self.modifies_l += list(es); return self
     def pure(self):
@@ -98,6 +101,10 @@ class Contract:
         (self.ghost_entry if at == 'entry' else self.ghost_exit).append(code); return self
     def prop(self, *ids):
         self.props.update(ids); return self
+    def on_raise_effect(self, code):
+        self.raise_effects.append(code); self.raise_keeps_heap = False; return self
+    def on_raise_ensures(self, e, name=None):
+        self.raise_ensures_l.append((name or 'onraise%d' % len(self.raise_ensures_l), e)); self.raise_keeps_heap = False; return self
     def interface(self):
         """this contract is the interface contract of a method: calls through the base type use it without case split"""
         self.interface_flag = True; return self
